@@ -434,8 +434,8 @@ func (g *chainGen) buildLevel(depth int, initial Files, signers []*TestKey, name
 			algTweak := 0
 			if cfg.Differ && k == honest-1 && honest > 1 && rng.Chance(60) {
 				p = prods.copyF()
-				switch rng.Intn(5) {
-				case 3:
+				switch rng.Intn(7) {
+				case 3, 5, 6:
 					// same paths and digests, but one artifact carries one MORE hash algorithm
 					algTweak = 1 + rng.Intn(2)
 				case 4:
@@ -661,7 +661,19 @@ func (g *chainGen) buildLevel(depth int, initial Files, signers []*TestKey, name
 			case "dup-infix":
 				put("deadbeef", g.wrapSign(linkTree(name, mats, oddProds, cmd), cfg.LinkDSSE, []sigSpec{{key: victim}}))
 			case "wrong-name-len":
-				files[name+".short.link"] = WriteJ(g.wrapSign(linkTree(name, mats, oddProds, cmd), false, []sigSpec{{key: victim}}), nil, false)
+				if honest > 0 && rng.Bool() {
+					// a file named after a LONGER prefix (9-12 characters) of the id of a functionary who
+					// took part honestly, with content altered after signing: only names with exactly
+					// eight characters are link files of the step - this one is not looked at, and above
+					// all does not displace the honest link (seeded change c02-link-glob-any-length)
+					hf := fs[rng.Intn(honest)]
+					t := g.wrapSign(linkTree(name, mats, prods, cmd), false, []sigSpec{{key: hf}})
+					t = t.Set("signed", linkTree(name, mats, oddProds, cmd))
+					files[name+"."+hf.ID[:9+rng.Intn(4)]+".link"] = WriteJ(t, nil, false)
+					lv.Feat = append(lv.Feat, "long-infix-of-honest")
+				} else {
+					files[name+".short.link"] = WriteJ(g.wrapSign(linkTree(name, mats, oddProds, cmd), false, []sigSpec{{key: victim}}), nil, false)
+				}
 			case "garbage":
 				files[name+"."+rng.Pick([]string{"00000000", "garbage!", shortID(foreign.ID)})+".link"] = rng.Pick([]string{"", "{", "not json", "{\"signed\":{},\"signatures\":[]}", "[1,2,3]", "{\"signed\":{\"_type\":\"link\"},\"signatures\":[{\"keyid\":\"00000000aa\",\"sig\":\"00\"}]}"})
 			case "bad-sig-encoding":
